@@ -392,6 +392,18 @@ def run(ctx):
                  and any(isinstance(y, ast.Yield) and isinstance(y.value, ast.Tuple)
                          and norm(y.value.elts[0]) == norm(s.targets[0])
                          for y in ast.walk(rl.loop))]
+    # ... or built where it is yielded
+    class _Def:
+        def __init__(self, value, node):
+            self.value, self.node = value, node
+    if not conf_defs:
+        for y in ast.walk(rl.loop):
+            if isinstance(y, ast.Yield) and isinstance(y.value, ast.Tuple) and y.value.elts \
+                    and str_template(y.value.elts[0]) is not None:
+                st_y = y
+                while not isinstance(st_y, ast.stmt):
+                    st_y = st_y._parent
+                conf_defs.append(_Def(y.value.elts[0], st_y))
     ok = False
     conf_fields = []
     if len(conf_defs) == 1:
@@ -400,7 +412,7 @@ def run(ctx):
         ok = len(tpl) == 2 and len(conf_fields) == 2 and conf_fields[0][2].endswith('d')
     ctx.ob('C08.R5', 'name:producer-format', ok,
            'the conformation name is "<model:int><alt-loc:1 char>" with nothing in between',
-           rl.mod, conf_defs[0] if conf_defs else rl.fn)
+           rl.mod, getattr(conf_defs[0], 'node', conf_defs[0]) if conf_defs else rl.fn)
     srt = rl.mod.func('conformation_sorter')
     s_src = norm(srt).replace(' ', '')
     arg = srt.args.args[0].arg
@@ -421,13 +433,14 @@ def run(ctx):
                          for s in defs0)
     ctx.ob('C08.R5', 'name:altloc-is-column-17', tag_ok,
            'the alt-loc part is the single alt-loc column of the record', rl.mod,
-           conf_defs[0] if conf_defs else rl.fn)
+           getattr(conf_defs[0], 'node', conf_defs[0]) if conf_defs else rl.fn)
     # digits and letters name the same conformations: '1'..'9' -> 'A'..'I', blank -> 'A'
     if conf_defs and alt is not None and isinstance(alt, ast.Name):
         from sa.consteval import ConstEval, UNKNOWN
-        blk = conf_defs[0]._parent
+        cnode = getattr(conf_defs[0], 'node', conf_defs[0])
+        blk = cnode._parent
         body = getattr(blk, 'body', [])
-        upto = body.index(conf_defs[0]) if conf_defs[0] in body else 0
+        upto = body.index(cnode) if cnode in body else 0
         stmts = [st for st in body[:upto] if isinstance(st, ast.If)
                  and any(isinstance(t, ast.Assign) and norm(t.targets[0]) == alt.id for t in st.body)
                  and {n.id for n in ast.walk(st.test) if isinstance(n, ast.Name)} <= {alt.id}]
@@ -446,7 +459,7 @@ def run(ctx):
                "alternate-location digits name the same conformations as letters: '1'..'9' -> "
                "'A'..'I', blank -> 'A', letters unchanged (constant folding of the %d mapping "
                "statements; wrong: %s)" % (len(stmts), bad), rl.mod,
-               stmts[0] if stmts else conf_defs[0])
+               stmts[0] if stmts else getattr(conf_defs[0], 'node', conf_defs[0]))
     # sorted names come from conformation_sorter
     rp = rl.mod.func('read_pdb')
     ctx.ob('C08.R5', 'names:sorted-with-sorter',
